@@ -312,3 +312,319 @@ Proof.
     + unfold before. rewrite C1. repeat split; auto.
     + lia.
 Qed.
+
+(* ---- fuel: the reader is given more fuel than there are lines and bytes ------------------------------------------------------------ *)
+
+Definition chars (ls : list line) : nat := fold_right (fun l a => (List.length l + a)%nat) 0%nat ls.
+Lemma total_fuel_eq ls : total_fuel ls = S (List.length ls + chars ls).
+Proof. reflexivity. Qed.
+Lemma chars_app a b : chars (a ++ b) = (chars a + chars b)%nat.
+Proof. induction a as [|l a IH]; simpl; [reflexivity|]. rewrite IH. lia. Qed.
+
+Lemma layout_chars M : forall its cur0,
+  let (ls, c') := layout M cur0 its in (count_terms its + List.length cur0 <= chars ls + List.length c')%nat.
+Proof.
+  induction its as [|[f c nm| |n] its IH]; intros cur0; cbn [layout count_terms].
+  - simpl. lia.
+  - specialize (IH (cur0 ++ term_text M c f nm)). destruct (layout M (cur0 ++ term_text M c f nm) its) as [ls c'].
+    rewrite app_length in IH. destruct (term_text_head M c f nm) as (t & E). rewrite E in IH. simpl in *. lia.
+  - specialize (IH (cur0 ++ s2l " +")). destruct (layout M (cur0 ++ s2l " +") its) as [ls c']. rewrite app_length in IH. simpl in *. lia.
+  - specialize (IH (blanks n)). destruct (layout M (blanks n) its) as [ls c']. simpl. lia.
+Qed.
+
+Lemma obj_lines_chars M on cols : (List.length (obj_terms cols) <= chars (obj_lines M on cols))%nat.
+Proof.
+  unfold obj_lines. fold (obj_terms cols).
+  set (hdr := " "%char :: on ++ s2l ": ").
+  pose proof (layout_chars M (obj_items M (List.length hdr) (obj_terms cols) (List.length hdr) 0) hdr) as H.
+  destruct (layout M hdr _) as [ls c']. rewrite obj_items_count in H. rewrite chars_app. simpl. lia.
+Qed.
+
+Lemma cstr_lines_chars M c : (List.length (c_terms c) <= chars (cstr_lines M c))%nat /\ (1 <= List.length (cstr_lines M c))%nat.
+Proof.
+  unfold cstr_lines, expr_layout.
+  pose proof (layout_chars M (row_items M (List.length (cstr_hdr c)) (c_terms c) (List.length (cstr_hdr c)) true true) (cstr_hdr c)) as H.
+  destruct (layout M (cstr_hdr c) _) as [ls c']. rewrite row_items_count in H. rewrite chars_app, app_length. simpl. rewrite app_length. lia.
+Qed.
+
+Lemma names_lines_chars ns ls : names_lines ns ls -> (forall n, In n ns -> n <> []) -> (List.length ns <= chars ls)%nat.
+Proof.
+  induction 1 as [|ns1 ns2 ls NE NL IH]; intros NN; [simpl; lia|].
+  rewrite app_length. cbn [chars fold_right]. fold (chars ls).
+  assert (L1 : (List.length ns1 <= List.length (name_line ns1))%nat).
+  { clear - NN. induction ns1 as [|n ns1 IH]; [simpl; lia|]. cbn [name_line flat_map]. fold (name_line ns1). rewrite app_length. simpl.
+    specialize (IH (fun m IN => NN m (or_intror IN))). lia. }
+  specialize (IH (fun n IN => NN n (in_or_app _ _ _ (or_intror IN)))). lia.
+Qed.
+
+Lemma flat_map_len_chars {A} (f : A -> list line) (g : A -> nat) xs : (forall x, In x xs -> (g x <= chars (f x))%nat) ->
+  forall x, In x xs -> (g x <= chars (flat_map f xs))%nat.
+Proof.
+  induction xs as [|y xs IH]; intros H x IN; [destruct IN|]. cbn [flat_map]. rewrite chars_app. destruct IN as [<-|IN].
+  - specialize (H y (or_introl eq_refl)). lia.
+  - specialize (IH (fun z INz => H z (or_intror INz)) x IN). lia.
+Qed.
+
+(* ---- the whole file ---------------------------------------------------------------------------------------------------------------- *)
+
+Section Main.
+  Variable M : Q.
+  Hypothesis HM : 0 < M.
+
+  (* the precondition of C08 on the problem by name (after name repair) *)
+  Definition wf_lp (P : llp) : Prop :=
+    match l_probname P with Some n => word_ok n | None => True end /\
+    name_ok (l_objname P) /\
+    NoDup (cn P) /\
+    (forall c, In c (l_cols P) -> name_ok (lc_name c) /\ reserved (lc_name c) = false /\ coef_ok M (lc_obj c) /\ lc_lo c <= lc_up c) /\
+    (forall r e, In r (l_rows P) -> In e (lr_ent r) -> In (fst e) (cn P)) /\
+    (forall r, In r (written P) -> row_ok M (cn P) r) /\
+    NoDup (l_objname P :: map lr_name (written P)) /\
+    written P <> [] /\
+    (forall c, In c (l_cols P) -> Qeq_bool (lc_obj c) 0 = false \/
+                                  exists r, In r (written P) /\ Qeq_bool (coefS (lr_ent r) (lc_name c)) 0 = false) /\
+    (existsb lc_int (l_cols P) = true -> l_intmarker P = true).
+
+  Lemma opt_names_cstrs cols0 : forall rows, opt_names (flat_map (cstrs_of_row M cols0) rows) = map lr_name rows.
+  Proof.
+    induction rows as [|r rows IH]; [reflexivity|]. cbn [flat_map map]. unfold opt_names in *. rewrite flat_map_app, IH.
+    unfold cstrs_of_row. destruct (lr_sense r); reflexivity.
+  Qed.
+
+  Lemma bounds_section_cases cols0 :
+    (flat_map (bound_lines M) cols0 = [] /\ bounds_section M cols0 = []) \/
+    bounds_section M cols0 = s2l "Bounds" :: flat_map (bound_lines M) cols0.
+  Proof. unfold bounds_section. destruct (flat_map (bound_lines M) cols0); [left; auto|right; reflexivity]. Qed.
+
+  Lemma bnd_effect_nolines cols0 : flat_map (bound_lines M) cols0 = [] -> forall rw, fold_left (bnd_effect M) cols0 rw = rw.
+  Proof.
+    induction cols0 as [|c cols0 IH]; intros H rw; [reflexivity|]. cbn [flat_map fold_left] in *. apply app_eq_nil in H. destruct H as [H1 H2].
+    rewrite (IH H2). unfold bnd_effect. unfold bound_lines in H1. destruct (encode_bounds M (lc_lo c) (lc_up c) (lc_int c)); [reflexivity|discriminate].
+  Qed.
+
+  Lemma kw_lines : kw_line (s2l "Bounds") /\ kw_line (s2l "Integer") /\ kw_line (s2l "End").
+  Proof. repeat split; eexists _, _; (split; [reflexivity|]); split; reflexivity. Qed.
+  Lemma kw_words : word_ok (s2l "Bounds") /\ word_ok (s2l "Integer") /\ word_ok (s2l "End").
+  Proof. repeat split; (discriminate || reflexivity). Qed.
+
+  Lemma kw_test_kw st w more kws : kwstate st w more -> kw_test st kws = existsb (fun k => ieq w (s2l k)) kws.
+  Proof. intros (_ & _ & E & F & FI). unfold kw_test. now rewrite E, FI, F. Qed.
+
+  (* the optional Bounds section *)
+  Lemma bounds_step st rw cols0 k kwl0 more0 kwlT moreT :
+    kwstate st kwl0 more0 -> kwl0 :: more0 = bounds_section M cols0 ++ kwlT :: moreT -> kw_after_bounds kwlT ->
+    Forall (colb_ok (r_cols rw)) cols0 -> (List.length (flat_map (bound_lines M) cols0) <= k)%nat ->
+    exists st', (if kw_test st ["BOUNDS"; "BOUND"]%string then read_bounds true M (S k) st rw else PrOk (st, rw)) =
+                PrOk (st', fold_left (bnd_effect M) cols0 rw) /\ kwstate st' kwlT moreT.
+  Proof.
+    intros KS EL KW OK FU. rewrite (kw_test_kw st kwl0 more0 _ KS).
+    destruct (bounds_section_cases cols0) as [[NL BS]|BS]; rewrite BS in EL.
+    - cbn [app] in EL. injection EL as -> ->. rewrite (bnd_effect_nolines cols0 NL).
+      exists st. split; [|exact KS]. destruct KW as [-> | ->]; reflexivity.
+    - cbn [app] in EL. injection EL as -> ->.
+      change (existsb (fun k0 => ieq (s2l "Bounds") (s2l k0)) ["BOUNDS"; "BOUND"]%string) with true. cbn beta iota.
+      unfold read_bounds.
+      destruct (bounds_loop_read M cols0 st st rw k kwlT moreT OK ltac:(reflexivity) (kwstate_before _ _ _ KS) KW FU) as (st1 & RB & P1 & C1 & R1 & E1).
+      rewrite RB. eexists. split; [reflexivity|].
+      assert (WK : word_ok kwlT) by (destruct KW as [-> | ->]; apply kw_words).
+      pose proof (next_field_kwline st1 kwlT P1 C1 WK E1) as K. rewrite R1 in K. exact K.
+  Qed.
+
+  (* the optional Integer section *)
+  Lemma ints_step st rw (P : llp) k kwlT moreT :
+    kwstate st kwlT moreT -> kwlT :: moreT = int_section P ++ [s2l "End"] ->
+    (existsb lc_int (l_cols P) = true -> l_intmarker P = true) ->
+    Forall (intname_ok (r_cols rw)) (int_names P) -> (List.length (int_names P) <= k)%nat ->
+    exists st', (if kw_test st ["INTEGER"; "INT"]%string then read_integer (S k) st rw else PrOk (st, rw)) =
+                PrOk (st', mark_all rw (int_names P)) /\ kwstate st' (s2l "End") [].
+  Proof.
+    intros KS EL WI OK FU. rewrite (kw_test_kw st kwlT moreT _ KS). unfold int_section in EL. fold (int_names P) in EL.
+    destruct (l_intmarker P) eqn:IM.
+    - cbn [app] in EL. injection EL as -> ->.
+      change (existsb (fun k0 => ieq (s2l "Integer") (s2l k0)) ["INTEGER"; "INT"]%string) with true. cbn beta iota.
+      unfold read_integer.
+      pose proof (int_lines_shape (int_names P) []) as NL. cbn [app is_nil negb] in NL.
+      destruct (ints_read _ _ NL st st rw k [] OK ltac:(reflexivity) (kwstate_before _ _ _ KS) FU) as (st1 & RB & P1 & C1 & R1 & E1).
+      rewrite RB. eexists. split; [reflexivity|].
+      pose proof (next_field_kwline st1 (s2l "End") P1 C1 (proj2 (proj2 kw_words)) E1) as K. rewrite R1 in K. exact K.
+    - cbn [app] in EL. injection EL as -> ->.
+      assert (NI : int_names P = []).
+      { unfold int_names. destruct (filter lc_int (l_cols P)) as [|c l] eqn:F; [reflexivity|]. exfalso.
+        assert (IN : In c (filter lc_int (l_cols P))) by (rewrite F; now left). apply filter_In in IN. destruct IN as [IN I].
+        assert (EX : existsb lc_int (l_cols P) = true) by (apply existsb_exists; eauto). specialize (WI EX). congruence. }
+      rewrite NI. exists st. split; [reflexivity|exact KS].
+  Qed.
+End Main.
+
+(* ---- the theorem -------------------------------------------------------------------------------------------------------------------- *)
+
+Section Main2.
+  Variable M : Q.
+  Hypothesis HM : 0 < M.
+
+  Theorem lp_roundtrip P : wf_lp M P ->
+    exists P', read_lp true M (write_lp M P) = Some P' /\ equiv_by_name (to_nlp P) (to_nlp P') = true.
+  Proof.
+    intros (WPN & WON & ND & WC & EN & WR & NDR & W1 & USE & WI).
+    assert (BO : forall c, In c (l_cols P) -> lc_lo c <= lc_up c) by (intros c IN; apply (WC c IN)).
+    destruct (finish_equiv M HM P ND BO EN W1 USE) as (P' & FIN & EQ).
+    exists P'. split; [|exact EQ].
+    unfold read_lp. enough (RES : read_lp_res true M (write_lp M P) = PrOk P') by (rewrite RES; reflexivity).
+    (* the segments of the file *)
+    set (cs := all_cstrs M P).
+    set (rowl := flat_map (cstr_lines M) cs).
+    set (bl := flat_map (bound_lines M) (l_cols P)).
+    set (bsec := bounds_section M (l_cols P)).
+    set (isec := int_section P).
+    set (objl := obj_lines M (l_objname P) (l_cols P)).
+    set (hdr := match l_probname P with Some n => [s2l "Problem"; " "%char :: n] | None => [] end).
+    assert (LS : write_lp M P = hdr ++ minmax_line (l_max P) :: (objl ++ STL :: (rowl ++ bsec ++ isec ++ [s2l "End"]))).
+    { unfold write_lp. fold hdr. fold objl. fold bsec. fold isec. f_equal. cbn [app]. f_equal. f_equal. f_equal. f_equal.
+      unfold rowl, cs, all_cstrs. fold (cn P). fold (written P).
+      generalize (written P). intros w. induction w as [|r w IH]; [reflexivity|]. cbn [flat_map]. rewrite flat_map_app, IH, row_lines_cstrs. reflexivity. }
+    set (ls := write_lp M P) in *.
+    unfold read_lp_res. fold ls. set (fuel := total_fuel ls).
+    (* fuel *)
+    set (k0 := (List.length ls + chars ls)%nat).
+    assert (FU : fuel = S k0) by reflexivity.
+    set (tailT := isec ++ [s2l "End"]).
+    set (rest1 := rowl ++ bsec ++ tailT).
+    assert (LSlen : (List.length ls = List.length hdr + S (List.length objl + S (List.length rowl + List.length bsec + List.length tailT)))%nat).
+    { rewrite LS. fold tailT. rewrite !app_length. cbn [List.length]. rewrite !app_length. cbn [List.length]. rewrite !app_length. lia. }
+    assert (LSch : (chars ls >= chars objl + chars rowl + chars bsec + chars tailT)%nat).
+    { rewrite LS. fold tailT. rewrite !chars_app. cbn [chars fold_right]. rewrite !chars_app. cbn [chars fold_right]. rewrite !chars_app. lia. }
+    (* 1. header *)
+    destruct (header_read (l_probname P) (l_max P) (objl ++ STL :: rest1) WPN) as (st0 & st1 & NF & RH & BF1).
+    cbv zeta in NF. fold hdr in NF. unfold rest1, tailT in NF. rewrite <- LS in NF. rewrite NF, RH.
+    (* 2. objective *)
+    assert (TO : terms_ok M (obj_terms (l_cols P))).
+    { unfold terms_ok, obj_terms. apply Forall_forall. intros t IN. apply in_flat_map in IN. destruct IN as (c & INc & IN).
+      destruct (Qeq_bool (lc_obj c) 0); [destruct IN|]. destruct IN as [<-|[]]. cbn [fst snd]. destruct (WC c INc) as (A & _ & B & _). auto. }
+    assert (OL : (List.length (obj_terms (l_cols P)) <= k0)%nat).
+    { pose proof (obj_lines_chars M (l_objname P) (l_cols P)). fold objl in H. unfold k0. lia. }
+    destruct (objective_read M HM st1 (l_probname P) (l_max P) (l_objname P) (l_cols P) rest1 k0 WON TO BF1 OL) as (st2 & RO & P2 & C2 & R2 & E2).
+    rewrite FU, RO. rewrite <- FU. fold (obj_raw P).
+    (* 3. constraints *)
+    assert (CSOK : Forall (cstr_ok M) cs).
+    { unfold cs, all_cstrs. apply Forall_forall. intros c IN. apply in_flat_map in IN. destruct IN as (r & INr & IN).
+      pose proof (cstrs_of_row_ok M (cn P) r (WR r INr)) as F. rewrite Forall_forall in F. auto. }
+    assert (CSNE : exists c0 cs', cs = c0 :: cs').
+    { unfold cs, all_cstrs. destruct (written P) as [|r w]; [congruence|]. cbn [flat_map]. unfold cstrs_of_row at 1.
+      destruct (lr_sense r); eexists _, _; reflexivity. }
+    assert (ON : opt_names cs = map lr_name (written P)) by apply opt_names_cstrs.
+    assert (KWT : exists kwl more', bsec ++ tailT = kwl :: more' /\ kw_line kwl /\ cutline kwl = kwl /\ word_ok kwl).
+    { unfold tailT, isec, int_section. destruct (bounds_section_cases M (l_cols P)) as [[_ BS]|BS]; fold bsec in BS; rewrite BS.
+      - destruct (l_intmarker P); eexists _, _; (split; [reflexivity|]); (split; [apply kw_lines|]); (split; [reflexivity|apply kw_words]).
+      - eexists _, _. split; [reflexivity|]. split; [apply kw_lines|]. split; [reflexivity|apply kw_words]. }
+    destruct KWT as (kwl & more' & ET & KWL & CKW & WKW).
+    destruct CSNE as (c0 & cs' & ECS).
+    assert (OK0 : cstr_ok M c0) by (rewrite ECS in CSOK; now inversion CSOK).
+    set (more_c := flat_map (cstr_lines M) cs' ++ bsec ++ tailT).
+    assert (R1E : rest1 = cstr_lines M c0 ++ more_c).
+    { unfold rest1, rowl, more_c. rewrite ECS. cbn [flat_map]. now rewrite <- app_assoc. }
+    pose proof (cstr_lines_shape M c0 more_c) as SH. destruct (rem M (cstr_tc M c0) more_c (cstr_items M c0)) as [cu re] eqn:RM.
+    destruct (cstr_first_line M HM c0 more_c cu re OK0 RM) as (b & x & t & CL & AB & NEb & NSP).
+    assert (NBx : is_blank x = false) by (unfold is_space in NSP; destruct (is_blank x); [discriminate|reflexivity]).
+    rewrite R1E, SH in R2.
+    destruct (subject_to_read st2 _ re b x t P2 C2 R2 E2 CL AB NBx) as (st3 & CST & AL3).
+    unfold read_constraints. rewrite CST.
+    assert (RN0 : row_names (obj_raw P) = [l_objname P]) by (unfold obj_raw; rewrite row_names_add_terms; reflexivity).
+    assert (LINES : flat_map (cstr_lines M) cs ++ kwl :: more' = (cstr_hdr c0 ++ cu) :: re).
+    { rewrite <- ET, <- SH. unfold more_c. rewrite ECS. cbn [flat_map]. now rewrite <- app_assoc. }
+    assert (LCS : (List.length cs <= List.length rowl)%nat /\ forall c, In c cs -> (List.length (c_terms c) <= chars rowl)%nat).
+    { unfold rowl. split.
+      - clear. induction cs as [|c l IH]; [simpl; lia|]. cbn [flat_map List.length]. rewrite app_length. pose proof (proj2 (cstr_lines_chars M c)). lia.
+      - apply (flat_map_len_chars (cstr_lines M) (fun c => List.length (c_terms c))). intros c _. apply cstr_lines_chars. }
+    destruct LCS as [LCS1 LCS2].
+    destruct (cstrs_read M HM cs st3 (obj_raw P) fuel fuel (cstr_hdr c0 ++ cu) re kwl more' CSOK ltac:(rewrite ECS; discriminate)) as (st4 & RL & P4 & C4 & R4 & E4); auto.
+    { rewrite ON. inversion NDR; assumption. }
+    { intros n IN. rewrite ON in IN. rewrite RN0. apply mem_cons_false. split; [|reflexivity]. intros ->. inversion NDR as [|? ? NI _]. contradiction. }
+    { rewrite FU. unfold k0. lia. }
+    { intros c IN. specialize (LCS2 c IN). rewrite FU. unfold k0. lia. }
+    rewrite RL. change (fold_left cstr_effect cs (obj_raw P)) with (rows_raw M P).
+    (* the columns created so far *)
+    assert (RC : r_cols (rows_raw M P) = AC M P).
+    { unfold rows_raw, AC. destruct (cstrs_effect_fields (all_cstrs M P) (obj_raw P)) as (_ & _ & _ & _ & E & _). rewrite E.
+      unfold obj_raw. destruct (add_terms_fields (rd_terms (obj_terms (l_cols P))) (raw0 (l_probname P) (l_max P) (l_objname P))) as (_ & _ & _ & _ & E1 & _).
+      rewrite E1. reflexivity. }
+    assert (INC : forall c, In c (l_cols P) -> mem (lc_name c) (r_cols (rows_raw M P)) = true).
+    { intros c IN. rewrite RC. apply mem_In, (AC_In M P USE). unfold cn. now apply in_map. }
+    assert (NIL : is_nil (r_cols (rows_raw M P)) = false).
+    { assert (EXR : exists r, In r (written P)) by (destruct (written P) as [|r w]; [congruence|exists r; now left]).
+      destruct EXR as (r & INr).
+      unfold written in INr. apply filter_In in INr. destruct INr as [INr RW]. unfold row_written in RW.
+      destruct (lr_ent r) as [|e el] eqn:EE; [discriminate|].
+      assert (INe : In (fst e) (cn P)) by (apply (EN r e INr); rewrite EE; now left).
+      apply (AC_In M P USE) in INe. rewrite RC. destruct (AC M P); [destruct INe|reflexivity]. }
+    rewrite NIL.
+    (* 4. bounds *)
+    assert (KS4 : kwstate (fst (next_field true st4)) kwl more').
+    { rewrite <- R4. apply next_field_kwline; auto. now rewrite C4. }
+    assert (TT : exists kwlT moreT, tailT = kwlT :: moreT /\ kw_after_bounds kwlT).
+    { unfold tailT, isec, int_section. destruct (l_intmarker P); eexists _, _; (split; [reflexivity|]); [left|right]; reflexivity. }
+    destruct TT as (kwlT & moreT & ETT & KAB).
+    assert (CBOK : Forall (colb_ok (r_cols (rows_raw M P))) (l_cols P)).
+    { apply Forall_forall. intros c IN. destruct (WC c IN) as (A & B & _). repeat split; auto. }
+    assert (BLEN : (List.length (flat_map (bound_lines M) (l_cols P)) <= k0)%nat).
+    { fold bl. assert (List.length bl <= List.length bsec)%nat by (unfold bsec, bounds_section; fold bl; destruct bl; simpl; lia). unfold k0. lia. }
+    assert (EL4 : kwl :: more' = bounds_section M (l_cols P) ++ kwlT :: moreT) by (rewrite <- ET, ETT; reflexivity).
+    destruct (bounds_step M (fst (next_field true st4)) (rows_raw M P) (l_cols P) k0 kwl more' kwlT moreT KS4 EL4 KAB CBOK BLEN) as (st5 & RB & KS5).
+    rewrite FU, RB. change (fold_left (bnd_effect M) (l_cols P) (rows_raw M P)) with (bnds_raw M P).
+    (* 5. integers *)
+    assert (RCB : r_cols (bnds_raw M P) = r_cols (rows_raw M P)).
+    { unfold bnds_raw. destruct (bnds_effect_fields M (l_cols P) (rows_raw M P) ND) as (_ & _ & E & _). exact E. }
+    assert (INOK : Forall (intname_ok (r_cols (bnds_raw M P))) (int_names P)).
+    { apply Forall_forall. intros n IN. unfold int_names in IN. apply in_map_iff in IN. destruct IN as (c & <- & IN).
+      apply filter_In in IN. destruct IN as [IN _]. split; [apply (WC c IN)|]. rewrite RCB. now apply INC. }
+    assert (ILEN : (List.length (int_names P) <= k0)%nat).
+    { destruct (l_intmarker P) eqn:IM.
+      - pose proof (int_lines_shape (int_names P) []) as NL. cbn [app is_nil negb] in NL. cbv beta iota in NL.
+        assert (NN : forall n, In n (int_names P) -> n <> []).
+        { intros n IN. rewrite Forall_forall in INOK. destruct (INOK n IN) as [NO _]. destruct n; [destruct NO|discriminate]. }
+        pose proof (names_lines_chars _ _ NL NN) as H.
+        assert (chars (int_lines (int_names P) [" "%char] false) <= chars tailT)%nat.
+        { unfold tailT, isec, int_section, int_names. rewrite IM. rewrite chars_app. unfold chars. cbn [fold_right]. lia. }
+        unfold k0. lia.
+      - assert (NI : int_names P = []).
+        { unfold int_names. destruct (filter lc_int (l_cols P)) as [|c l] eqn:F; [reflexivity|]. exfalso.
+          assert (IN : In c (filter lc_int (l_cols P))) by (rewrite F; now left). apply filter_In in IN. destruct IN as [IN I].
+          assert (EX : existsb lc_int (l_cols P) = true) by (apply existsb_exists; eauto). specialize (WI EX). congruence. }
+        rewrite NI. simpl. lia. }
+    destruct (ints_step st5 (bnds_raw M P) P k0 kwlT moreT KS5 (eq_sym ETT) WI INOK ILEN) as (st6 & RI & KS6).
+    rewrite RI. change (mark_all (bnds_raw M P) (int_names P)) with (final_raw M P).
+    (* 6. End *)
+    rewrite (kw_test_kw st6 _ _ _ KS6). change (existsb (fun k => ieq (s2l "End") (s2l k)) ["END"%string]) with true. cbn beta iota.
+    rewrite FIN. reflexivity.
+  Qed.
+End Main2.
+
+(* the hypotheses are satisfiable: a problem with a ranged row, a keyword as column name, an integer column *)
+Example wf_lp_example :
+  let c1 := {| lc_name := s2l "x"; lc_obj := 3; lc_lo := 0; lc_up := 1000; lc_int := false |} in
+  let c2 := {| lc_name := s2l "end"; lc_obj := - (1 # 2); lc_lo := -1000; lc_up := 4; lc_int := true |} in
+  let r1 := {| lr_name := s2l "c1"; lr_sense := SR; lr_rhs := 1; lr_range := 2; lr_ent := [(s2l "x", 1); (s2l "end", -2 # 3)] |} in
+  let r2 := {| lr_name := s2l "empty"; lr_sense := SL; lr_rhs := 1; lr_range := 0; lr_ent := [] |} in
+  let P := {| l_probname := Some (s2l "p"); l_max := true; l_objname := s2l "obj"; l_intmarker := true; l_cols := [c1; c2]; l_rows := [r1; r2] |} in
+  wf_lp 1000 P /\
+  match read_lp true 1000 (write_lp 1000 P) with Some P' => equiv_by_name (to_nlp P) (to_nlp P') | None => false end = true.
+Proof.
+  cbv zeta. split; [|vm_compute; reflexivity].
+  unfold wf_lp. cbn [l_probname l_objname l_cols l_rows l_intmarker].
+  split; [split; [discriminate|reflexivity]|].
+  split; [split; reflexivity|].
+  split; [repeat constructor; cbn; intuition discriminate|].
+  split.
+  { intros c [<-|[<-|[]]]; cbn [lc_name lc_obj lc_lo lc_up]; (split; [split; reflexivity|]); (split; [reflexivity|]);
+      (split; [reflexivity|]); unfold Qle; cbn; lia. }
+  split.
+  { intros r e [<-|[<-|[]]] IN; cbn [lr_ent] in IN; [|destruct IN]. destruct IN as [<-|[<-|[]]]; cbn; auto. }
+  split.
+  { intros r IN. cbn in IN. destruct IN as [<-|[]]. unfold row_ok. cbn [lr_name lr_sense lr_rhs lr_range].
+    split; [split; reflexivity|]. split.
+    - repeat constructor; cbn; try reflexivity.
+    - split; [discriminate|]. split; [split; reflexivity|]. intros _. split; reflexivity. }
+  split; [repeat constructor; cbn; intuition discriminate|].
+  split; [discriminate|].
+  split; [|reflexivity].
+  intros c [<-|[<-|[]]]; left; reflexivity.
+Qed.
